@@ -5,7 +5,9 @@ import (
 	"fmt"
 	"os"
 
+	"github.com/virel-project/virel-blockchain/v3/adb/lmdb"
 	"github.com/virel-project/virel-blockchain/v3/blockchain"
+	"github.com/virel-project/virel-blockchain/v3/logger"
 
 	"github.com/virel-project/virel-blockchain/v3/bitcrypto"
 	"encoding/binary"
@@ -70,6 +72,8 @@ type History struct {
 	Stats  map[string]int
 	BranchValidRefused []int // op indexes where a block valid on its own branch (builder accepted) was refused though parent known
 	Crashes []*Crash
+	LMDBChecked bool // the same deliveries were replayed on a node over the real LMDB back-end
+	LMDBSame    bool // ... and its store equals the in-memory store key by key (statistics compared field by field)
 	snaps   map[int]*memdb.DB
 }
 
@@ -173,6 +177,7 @@ type HistParams struct {
 	DumpEvery int
 	Crashes  int
 	Scenario string
+	LMDB     bool
 }
 
 func (w *World) genHistory(p HistParams) *History {
@@ -426,6 +431,10 @@ func (w *World) genHistory(p HistParams) *History {
 		h.Crashes = append(h.Crashes, c)
 		h.Stats["crash-restart"]++
 	}
+	if p.LMDB {
+		h.LMDBChecked, h.LMDBSame = true, w.replayOnLMDB(h)
+		h.Stats["lmdb-replay"]++
+	}
 	// fresh node fed only the final main chain
 	top := w.nodeOfTop(h.NUT)
 	if top != nil {
@@ -665,4 +674,88 @@ func (w *World) scenarioCorruptSweep(h *History, deliver func(*TNode) *Op) {
 		}
 	}
 	h.Stats["scenario-corruptsweep"]++
+}
+
+
+// replayOnLMDB delivers the history's operations to a node over the repository's LMDB back-end and compares the
+// resulting store with the in-memory one: every index key by key, the "info" index through the decoded statistics
+// (gob encodes maps in iteration order; mempool entries carry wall-clock expiry times).
+func (w *World) replayOnLMDB(h *History) bool {
+	dir, err := os.MkdirTemp(os.Getenv("VERIF_SCRATCH"), "verif-lmdb-")
+	if err != nil {
+		panic(err)
+	}
+	defer os.RemoveAll(dir)
+	ldb, err := lmdb.New(dir+"/", 0o700, logger.DiscardLog)
+	if err != nil {
+		panic(err)
+	}
+	names := []string{"info", "block", "topo", "state", "tx", "intx", "outtx", "delegate", "stakesig", "delegatehistory"}
+	mkIndex := func(db adb.DB) blockchain.Index {
+		return blockchain.Index{Info: db.Index("info"), Block: db.Index("block"), Topo: db.Index("topo"), State: db.Index("state"),
+			Tx: db.Index("tx"), InTx: db.Index("intx"), OutTx: db.Index("outtx"), Delegate: db.Index("delegate"),
+			StakeSig: db.Index("stakesig"), DelegateHistory: db.Index("delegatehistory")}
+	}
+	memIndex := w.bc.Index
+	lIndex := mkIndex(ldb)
+	lidx := map[string]adb.Index{} // handles are opened outside any transaction (Index() runs its own write transaction)
+	for _, n := range names {
+		lidx[n] = ldb.Index(n)
+	}
+	// start from the same genesis-only store
+	gen := w.genesis.Snap.Dump()
+	err = ldb.Update(func(txn adb.Txn) error {
+		for _, n := range names {
+			for _, kv := range gen[n] {
+				if err := txn.Put(lidx[n], kv[0], kv[1]); err != nil {
+					return err
+				}
+			}
+		}
+		return nil
+	})
+	if err != nil {
+		panic(err)
+	}
+	w.bc.DB, w.bc.Index = ldb, lIndex
+	for _, op := range h.Ops {
+		func() {
+			defer func() { recover() }()
+			w.bc.VerifDeliverRaw(op.Node.Raw)
+		}()
+	}
+	same := true
+	mem := h.NUT.Dump()
+	var lstats, mstats *blockchain.Stats
+	ldb.View(func(txn adb.Txn) error {
+		lstats = w.bc.GetStats(txn)
+		for _, n := range names {
+			if n == "info" {
+				continue
+			}
+			var rows [][2][]byte
+			txn.ForEach(lidx[n], func(k, v []byte) error {
+				rows = append(rows, [2][]byte{append([]byte{}, k...), append([]byte{}, v...)})
+				return nil
+			})
+			if len(rows) != len(mem[n]) {
+				same = false
+				continue
+			}
+			for i := range rows {
+				if !bytes.Equal(rows[i][0], mem[n][i][0]) || !bytes.Equal(rows[i][1], mem[n][i][1]) {
+					same = false
+				}
+			}
+		}
+		return nil
+	})
+	w.bc.DB, w.bc.Index = h.NUT, memIndex
+	h.NUT.View(func(txn adb.Txn) error { mstats = w.bc.GetStats(txn); return nil })
+	if lstats.TopHash != mstats.TopHash || lstats.TopHeight != mstats.TopHeight || !lstats.CumulativeDiff.Equals(mstats.CumulativeDiff) ||
+		lstats.StakedAmount != mstats.StakedAmount || len(lstats.Tips) != len(mstats.Tips) {
+		same = false
+	}
+	ldb.Close()
+	return same
 }
